@@ -1,7 +1,7 @@
 (* C14 -- open_files(), num_fds(), io_counters() reflect the descriptor table.
    Statements only; proofs live in C14/Proofs*.v.  Model: C14/Model.v
    (transcription of psutil/_pslinux.py), specification: C14/Spec.v. *)
-From PV Require Import C14.Spec C14.Mounts C14.Proofs C14.ProofsIO C14.ProofsMounts.
+From PV Require Import C14.Spec C14.Mounts C14.PyMini Gen.C14_Tables C14.Proofs C14.ProofsIO C14.ProofsMounts C14.ProofsGen.
 
 (* the mode string is the one the flags imply, for every flag word; access mode 3
    (which has no documented mode string) is a KeyError in the code as written *)
@@ -69,3 +69,25 @@ Theorem C14_mounts_exact : forall es alive io cur,
                      m_current := cur |} = Val (spec_rows es).
 Proof. exact mounts_exact. Qed.
 Print Assumptions C14_mounts_exact.
+
+(* tie to the source by translation: the statement list that props/C14.py (gen_tables) translates from
+   the CURRENT psutil/_pslinux.py:file_flags_to_mode on every run computes, for every flag word, the
+   mode of the hand-written model (to which all theorems above refer) *)
+Theorem C14_translated_mode_is_model : forall flags, 0 <= flags ->
+  run_prog gen_mode_prog flags = omap fmode_bytes (file_flags_to_mode flags).
+Proof. exact gen_mode_prog_correct. Qed.
+Print Assumptions C14_translated_mode_is_model.
+
+(* ... and hence the mode string the flags imply *)
+Theorem C14_translated_mode_table : forall flags, 0 <= flags ->
+  run_prog gen_mode_prog flags = omap fmode_bytes (of_option KeyError (spec_mode flags)).
+Proof. exact gen_mode_prog_table. Qed.
+Print Assumptions C14_translated_mode_table.
+
+(* the keys, their order in the pio(...) call, the key/value separator and the result's field names
+   translated from Process.io_counters are those of the model / the documentation *)
+Theorem C14_translated_io_tables :
+  gen_pio_keys = io_keys /\ gen_io_sep = colon_sp /\
+  gen_pio_fields = [bs "read_count"; bs "write_count"; bs "read_bytes"; bs "write_bytes"; bs "read_chars"; bs "write_chars"].
+Proof. exact gen_io_tables_correct. Qed.
+Print Assumptions C14_translated_io_tables.
